@@ -320,29 +320,31 @@ SET_MODULES = (
     "AutoCarver.carvers.continuous_carver",
     "AutoCarver.carvers.multiclass_carver",
 )
-POOL_MODULES = (
-    "AutoCarver.discretizers.utils.base_discretizers",
-    "AutoCarver.discretizers.utils.quantitative_discretizers",
-    "AutoCarver.discretizers.utils.type_discretizers",
-)
-
-
 def install():
-    """Binds ``set`` and ``Pool`` in the AutoCarver modules to the simulated ones (idempotent)."""
+    """Binds ``set`` and ``Pool`` in the AutoCarver modules to the simulated ones (idempotent).
+
+    ``Pool`` is replaced wherever a module of the discretizers / carvers packages holds a module-level
+    ``Pool`` (discovered, not listed: a refactoring that moves the pool code keeps the seam), and on
+    the ``multiprocessing`` module itself for code that reaches it as ``multiprocessing.Pool``.
+    """
     import importlib  # pylint: disable=C0415
+    import multiprocessing  # pylint: disable=C0415
 
     if _PATCHED:
         return
+    pools = 0
     for name in SET_MODULES:
         mod = importlib.import_module(name)
         mod.set = SimSet
         _PATCHED.append((mod, "set"))
-    for name in POOL_MODULES:
-        mod = importlib.import_module(name)
-        if not hasattr(mod, "Pool"):
-            raise HarnessError(f"{name} has no module-level Pool to replace")
-        mod.Pool = SimPool
-        _PATCHED.append((mod, "Pool"))
+        if hasattr(mod, "Pool"):
+            mod.Pool = SimPool
+            _PATCHED.append((mod, "Pool"))
+            pools += 1
+    if pools == 0:
+        raise HarnessError("no AutoCarver module holds a module-level Pool to replace")
+    multiprocessing.Pool = SimPool
+    _PATCHED.append((multiprocessing, "Pool"))
 
 
 def report() -> dict:
